@@ -84,13 +84,16 @@ def h_roundtrip(yours, theirs, ctx):
             return '' if _same_text(aa, bb) else Patch(aa, bb, k.get('context_size'))
 
         def apply_patch(eng, a, k):
-            src, p = a[0], a[1]
+            # apply_patch(source, patch, revert=False): positional or keyword arguments are the same call
+            src = k['source'] if 'source' in k else a[0]
+            p = k['patch'] if 'patch' in k else a[1]
             log.append(('apply', src, p))
             if isinstance(p, Patch) and _same_text(p.a, src) and not k.get('revert', a[2] if len(a) > 2 else False):
                 return p.b
             return Text(f'garbage(apply_patch of {p!r} to {src!r})')
-        e.stub(PR.make_patch, make_patch)
-        e.stub(PR.apply_patch, apply_patch)
+        from pytezos.protocol import diff as DF       # the defining module: the stubs are keyed by the function objects, so they apply
+        e.stub(DF.make_patch, make_patch)               # whichever way protocol.py imports them (`from … import f` or `import … as m`)
+        e.stub(DF.apply_patch, apply_patch)
         e.stub(PR.files_to_proto, lambda eng, a, k: Proto(a[0]))
         e.stub(PR.proto_to_files, lambda eng, a, k: list(a[0].files) if isinstance(a[0], Proto) else (_ for _ in ()).throw(Unsupported('proto_to_files of a foreign value')))
         p1, p2 = Obj(PR.Protocol), Obj(PR.Protocol)
